@@ -448,6 +448,9 @@ func runLine(line string) {
 var cfgKeys = []string{"k", "pkg", "commit", "goos", "a", "z"}
 var riskyKeys = []string{"name", "gomaxprocs", "sub1", "upload", "by", "upload-file", "upload-part", "upload-time", "b"}
 var vals = []string{"1", "2", "10", "a", "ab", "abc", "b", "a b", `x"y`, `c\d`, "\xc3\xa9", "Z", "~", "v w  ", "0", "a\tb", "x:y", "p>q", "|"}
+// label values holding white space that is neither blank nor tab: the query builder leaves them
+// unquoted and SplitWords must keep them in one word
+var wsVals = []string{"Xeon\u00a0E5", "a\u2003b", "a\u3000b", "x\u2028y", "a\vb", "a\fb", "a\rb", "\u00a0lead", "trail\u3000", "v\u0085w"}
 var bases = []string{"Foo", "Bar", "F", "Foo-bar", "\xc3\xa9t\xc3\xa9", "Q"}
 var subs = []string{"/x", "/y", "/a=1", "/a=2", "/b=c=d", "/name=q", "/gomaxprocs=3", "/sub2=w", "/z=1"}
 var sufs = []string{"", "", "", "-4", "-8", "-16", "-+5", "--3", "-x", "-99999999999999999999", "-0", "-9223372036854775807", "-9223372036854775808"}
@@ -462,6 +465,8 @@ type gen struct {
 	findings int
 	// unicode mixes non-ASCII letters and spaces into keys, names and query keys
 	unicode bool
+	// pairs are the key/value pairs the files of the current history set
+	pairs [][2]string
 }
 
 var uniKeys = []string{"\u00e9", "\u043a\u043b\u044e\u0447", "k\u00c9", "k\u00a0x", "\u00c9x", "k\u2028", "\u00e9\u00e8k", "k\xff", "\xffk", "k\u00df"}
@@ -537,11 +542,17 @@ func (g *gen) file(tags map[string]bool) string {
 				tags["unikey"] = true
 			}
 			sep := hx.Pick(r, []string{": ", ": ", ":\t", ":   "})
+			val := hx.Pick(r, vals)
+			if r.Chance(1, 5) {
+				val = hx.Pick(r, wsVals)
+				tags["wsval"] = true
+			}
+			g.pairs = append(g.pairs, [2]string{k, val})
 			e := eol
 			if g.findings == 1 && r.Chance(1, 8) {
 				e = "\r" + eol
 			}
-			b.WriteString(k + sep + hx.Pick(r, vals) + e)
+			b.WriteString(k + sep + val + e)
 			tags["set"] = true
 		case x < 7:
 			b.WriteString(hx.Pick(r, cfgKeys) + hx.Pick(r, []string{":", ":  ", ": \t"}) + eol)
@@ -618,6 +629,16 @@ func (g *gen) query(c *histCase, ids []string, tags map[string]bool) string {
 		}
 		return hx.Pick(r, vals)
 	}
+	if len(g.pairs) > 0 && r.Chance(1, 4) {
+		// what the analysis front end sends: terms quoted by its own query builder
+		var ws []string
+		for n := 1 + r.Intn(2); n > 0; n-- {
+			p := hx.Pick(r, g.pairs)
+			ws = append(ws, strings.TrimSuffix(aapp.VerifAddToQuery("", p[0]+":"+p[1]), " | "))
+		}
+		tags["builder"] = true
+		return strings.Join(ws, " ")
+	}
 	var words []string
 	nterms := r.Intn(6)
 	for len(words) < nterms {
@@ -675,6 +696,7 @@ func nextDay(day string) string {
 
 func (g *gen) hist(mode int) *histCase {
 	r := g.r
+	g.pairs = nil
 	c := &histCase{}
 	tags := map[string]bool{}
 	day := "20260101"
@@ -802,6 +824,8 @@ func swLine(id string, q, add string) string {
 	tag := "plain"
 	if strings.ContainsAny(q+add, "\"\\") {
 		tag = "quoting"
+	} else if strings.ContainsAny(q+add, "\u00a0\u2003\u3000\u2028\u0085\v\f\r") {
+		tag = "otherspace"
 	}
 	return fmt.Sprintf("case %s kind=sw q=%s add=%s tag=%s", id, hx.HexS(q), hx.HexS(add), tag)
 }
@@ -886,7 +910,16 @@ func main() {
 		if r.Chance(1, 2) {
 			add = hx.Pick(r, cfgKeys) + ":" + hx.Pick(r, vals)
 		}
-		emit(swLine(next(), mk(12), add))
+		q := mk(12)
+		if r.Chance(1, 4) {
+			// no quote or backslash anywhere: white space other than blank and tab stays inside words
+			add = hx.Pick(r, cfgKeys) + ":" + hx.Pick(r, wsVals)
+			q = strings.NewReplacer("\"", "", "\\", "").Replace(q)
+			if r.Chance(1, 2) {
+				q += " " + hx.Pick(r, cfgKeys) + ":" + hx.Pick(r, wsVals)
+			}
+		}
+		emit(swLine(next(), q, add))
 	}
 	// histories
 	nh := hx.N(800, 32000) / nshards
